@@ -58,8 +58,8 @@ func runC15(c *Ctx) {
 			continue
 		}
 		key := ev + "." + recvTypeName(fd) + ".LinkTo"
-		s, _ := srcOf(p, ev, recvTypeName(fd), "LinkTo")
-		if s == "e.linkTo(target,e.Trigger)" {
+		s, _ := srcNorm(p, ev, recvTypeName(fd), "LinkTo")
+		if s == "$.linkTo($1,$.Trigger)" {
 			r.Pass("sibling/trigger-template", key, p.posStr(fd.Pos()), "links the target to this event's own Trigger")
 		} else {
 			r.Fail("sibling/trigger-template", key, p.posStr(fd.Pos()), "LinkTo must be e.linkTo(target, e.Trigger); found "+s)
@@ -149,15 +149,37 @@ func runC15(c *Ctx) {
 			r.Pass("link/unhook-before-hook", ev+".event.linkTo", f.P.posStr(f.Body.Pos()), "previous link unhooked on every path before the new hook is created")
 		}
 	}
-	if s, fd := srcOf(p, ev, "event", "Hook"); fd != nil {
-		if hasAll(s, "hook:=newHook(e.hooksCounter.Add(1),e,triggerFunc,opts)", "e.hooks.Set(hook.id,hook)") || hasAll(s, "newHook(e.hooksCounter.Add(1),e,triggerFunc,", "e.hooks.Set(hook.id,hook)") {
+	if fd := p.FuncDecl(ev, "event", "Hook"); fd != nil {
+		// the hook is registered under the id it was created with, and that id is a fresh value of
+		// the atomic counter - whatever the locals are called
+		f := newFuncCFG(p, info, fd.Body, ev+".event.Hook")
+		okHook, n := true, 0
+		for _, c := range f.Calls(func(c *ast.CallExpr) bool {
+			se, ok := ast.Unparen(c.Fun).(*ast.SelectorExpr)
+			return ok && se.Sel.Name == "Set" && len(c.Args) == 2 && fieldSel(info, se.X, "hooks")
+		}) {
+			n++
+			cpt, _ := f.PointOf(c)
+			made, mpt := f.ResolveToCall(c.Args[1], cpt)
+			mc, isCall := ast.Unparen(made).(*ast.CallExpr)
+			if !isCall || rawKey(mc.Fun) != "newHook" || len(mc.Args) == 0 || !strings.HasSuffix(f.KeyAt(mc.Args[0], mpt), ".hooksCounter.Add(1)") {
+				okHook = false
+				continue
+			}
+			ks, isSel := ast.Unparen(c.Args[0]).(*ast.SelectorExpr)
+			if !isSel || ks.Sel.Name != "id" || objOfIdent(info, ks.X) == nil || objOfIdent(info, ks.X) != objOfIdent(info, c.Args[1]) {
+				okHook = false
+			}
+		}
+		if okHook && n == 1 {
 			r.Pass("ident/unique-hook-id", ev+".event.Hook", p.posStr(fd.Pos()), "hook id from the atomic counter; registered under that id")
 		} else {
+			s, _ := srcOf(p, ev, "event", "Hook")
 			r.Fail("ident/unique-hook-id", ev+".event.Hook", p.posStr(fd.Pos()), "hooks must be keyed by a fresh id from hooksCounter.Add(1): "+s)
 		}
 	}
-	if s, fd := srcOf(p, ev, "Hook", "Unhook"); fd != nil {
-		if s == "h.event.hooks.Delete(h.id)" {
+	if s, fd := srcNorm(p, ev, "Hook", "Unhook"); fd != nil {
+		if s == "$.event.hooks.Delete($.id)" {
 			r.Pass("ident/unique-hook-id", ev+".Hook.Unhook", p.posStr(fd.Pos()), "deletes exactly its own id")
 		} else {
 			r.Fail("ident/unique-hook-id", ev+".Hook.Unhook", p.posStr(fd.Pos()), "Unhook must delete the hook's own id: "+s)
@@ -761,10 +783,51 @@ func checkValueNotifier(r *Reporter, p *Prog) {
 		}
 	}
 	// Deregister is single-shot (atomic swap) and Wait defers it
-	if s, fd := srcOf(p, pkg, "Listener", "Deregister"); fd != nil {
-		if strings.Contains(exprKey(fd.Body.List[0].(*ast.IfStmt).Cond), "!l.deregistered.Swap(true)") && hasAll(s, "close(l.deregisteredChan)", "l.deregister()") {
+	if fd := p.FuncDecl(pkg, "Listener", "Deregister"); fd != nil {
+		// single-shot: the channel is closed and the entry deregistered only on the edge on which the
+		// atomic Swap(true) reported that nobody did it before, and on that edge always
+		f := newFuncCFG(p, info, fd.Body, pkg+".Listener.Deregister")
+		var first []Edge
+		f.forEachEdgeFact(func(e Edge, b *cfg.Block, ft fact) {
+			cl, ok := ast.Unparen(ft.Atom).(*ast.CallExpr)
+			if !ok || ft.Pol || len(cl.Args) != 1 || rawKey(cl.Args[0]) != "true" {
+				return
+			}
+			if se, isSel := ast.Unparen(cl.Fun).(*ast.SelectorExpr); isSel && se.Sel.Name == "Swap" && fieldSel(info, se.X, "deregistered") {
+				first = append(first, e)
+			}
+		})
+		isClose := func(n ast.Node) bool {
+			c, ok := n.(*ast.CallExpr)
+			return ok && rawKey(c.Fun) == "close" && len(c.Args) == 1 && fieldSel(info, c.Args[0], "deregisteredChan")
+		}
+		isDereg := func(n ast.Node) bool {
+			c, ok := n.(*ast.CallExpr)
+			if !ok {
+				return false
+			}
+			return fieldSel(info, c.Fun, "deregister")
+		}
+		okOnce := len(first) > 0
+		for _, pred := range []func(ast.Node) bool{isClose, isDereg} {
+			pts := f.Find(pred)
+			if len(pts) != 1 {
+				okOnce = false
+				continue
+			}
+			if _, only := f.OnlyThroughEdges(pts[0], first); !only {
+				okOnce = false
+			}
+			for _, e := range first {
+				if _, found := f.reach(Point{e.From.Succs[e.Succ], 0}, &searchOpts{AvoidNode: pred}, func(pt Point, atExit bool) bool { return atExit }); found {
+					okOnce = false
+				}
+			}
+		}
+		if okOnce {
 			r.Pass("notifier/deregister-once", pkg+".Listener.Deregister", p.posStr(fd.Pos()), "single-shot through an atomic swap")
 		} else {
+			s, _ := srcOf(p, pkg, "Listener", "Deregister")
 			r.Fail("notifier/deregister-once", pkg+".Listener.Deregister", p.posStr(fd.Pos()), "Deregister must be single-shot (atomic Swap): "+s)
 		}
 	}
